@@ -27,6 +27,12 @@ def poly_to_expr(d, subs=None):
         terms.append(t)
     if not terms:
         return P.const(0)
+    if len(terms) > 200:
+        # very long sums (Lagrange arithmetisation of conditions over 4-valued non-integer types):
+        # balanced tree, so that the printers' recursion depth stays logarithmic
+        while len(terms) > 1:
+            terms = [("add", terms[i], terms[i + 1]) if i + 1 < len(terms) else terms[i] for i in range(0, len(terms), 2)]
+        return terms[0]
     e = terms[0]
     for t in terms[1:]:
         e = ("add", e, t)
